@@ -38,6 +38,7 @@
 #include "stir/recon_buildblock/TrivialBinNormalisation.h"
 #include "stir/scatter/SingleScatterSimulation.h"
 #include "stir/ProjDataInfoCylindricalNoArcCorr.h"
+#include "stir/ProjDataInfoGenericNoArcCorr.h"
 #include "stir/DetectionPositionPair.h"
 #include <atomic>
 #include <chrono>
@@ -258,6 +259,7 @@ threads_via_stir(int t)
 struct Settings
 {
   int cache = 0, lors = 1, nsub = 1;
+  int max_lors = 2; // 1 for BlocksOnCylindrical data whose tangential range touches the detector-pair table (see blocks_lors_limited)
   bool use_add = false, use_norm = false;
   int sym = 31; // projector families: the five symmetry switches of the ray-tracing matrix
   int geom = 0; // projector families: which of the two image geometries the projectors / objective function are set up for
@@ -277,12 +279,33 @@ struct Settings
   int sc_thr = 0; // index into the attenuation thresholds
 };
 
+//! BlocksOnCylindrical data + num_tangential_LORs > 1 + a tangential range that touches the (view, tangential position) ->
+//! detector pair table: known finding of property C04 ("C04:blocks:tangential-LORs>1:tangential-range-reaches-detector-pair-
+//! table-edge": ProjDataInfo::get_sampling_in_s evaluates get_s at tangential positions +-1, assertion / out-of-range read, with
+//! one thread as well).  Not a thread effect: such data are projected with one tangential LOR (class counted).
+bool
+blocks_lors_limited(const json& c)
+{
+  const json& sc = c["scanner"];
+  if (!sc.contains("geometry") || sc["geometry"].get<std::string>() != "BlocksOnCylindrical")
+    return false;
+  const int N = sc["ndet"].get<int>(), tang = c["pdi"]["tang"].get<int>();
+  const int mn = -(tang / 2), mx = -(tang / 2) + tang - 1;
+  return mn - 1 < -(N / 2) + 1 || mx + 1 > N / 2;
+}
+bool
+is_blocks(const json& c)
+{
+  return c["scanner"].contains("geometry") && c["scanner"]["geometry"].get<std::string>() == "BlocksOnCylindrical";
+}
+
 Settings
 initial_settings(const json& c)
 {
   Settings s;
   s.cache = c["cache"].get<int>();
-  s.lors = c["lors"].get<int>();
+  s.max_lors = blocks_lors_limited(c) ? 1 : 2;
+  s.lors = std::min(c["lors"].get<int>(), s.max_lors);
   s.nsub = c["subsets"].get<int>();
   s.use_add = c["use_add"].get<bool>();
   s.use_norm = c["use_norm"].get<bool>();
@@ -383,6 +406,30 @@ make_world(const json& c, const Settings& st, const std::string& dir)
   SplitMix g(c["dseed"].get<uint64_t>() ^ 0x1234567ULL);
   for (auto it = w.data_mem->begin_all(); it != w.data_mem->end_all(); ++it)
     *it = float(1 + g.range(0, 20));
+  // (12.8) measured data with exact zeros (a back projector skips such bins BEFORE it asks for the matrix row, so other
+  // rows enter the cache, by other threads, at other times): "zeros" 1 = about 60 % of the bins are 0; 2 = everything is 0
+  // except one view of segment 0 (all but one work item have nothing to add: per-thread images stay untouched / all zero)
+  const int zeros = c.value("zeros", 0);
+  if (zeros == 1)
+    {
+      SplitMix gz(c["dseed"].get<uint64_t>() ^ 0x5a5a5ULL);
+      for (auto it = w.data_mem->begin_all(); it != w.data_mem->end_all(); ++it)
+        if (gz.unit() < 0.6)
+          *it = 0.F;
+    }
+  else if (zeros == 2)
+    {
+      const int v0 = w.pdi->get_min_view_num() + int((c["dseed"].get<uint64_t>() >> 8) % uint64_t(w.pdi->get_num_views()));
+      for (int k = w.data_mem->get_min_tof_pos_num(); k <= w.data_mem->get_max_tof_pos_num(); ++k)
+        for (int seg = w.data_mem->get_min_segment_num(); seg <= w.data_mem->get_max_segment_num(); ++seg)
+          for (int v = w.data_mem->get_min_view_num(); v <= w.data_mem->get_max_view_num(); ++v)
+            if (!(seg == 0 && v == v0))
+              {
+                Viewgram<float> vg0 = w.data_mem->get_empty_viewgram(v, seg, false, k);
+                if (w.data_mem->set_viewgram(vg0) != Succeeded::yes)
+                  throw std::logic_error("harness: zeroing a viewgram failed");
+              }
+    }
   for (auto it = w.add_mem->begin_all(); it != w.add_mem->end_all(); ++it)
     *it = float(g.real(0.5, 1.5));
   w.mult_mem.reset(new ProjDataInMemory(exam, w.pdi->create_non_tof_clone()));
@@ -445,6 +492,51 @@ append(std::vector<double>& out, const ProjDataInMemory& pd)
     out.push_back(*it);
 }
 
+
+// ---- output container of a forward projection (domain audit, DESIGN 12.8) ----------------------------------------------
+//! kind 0: a freshly constructed ProjDataInMemory (all the harness used before); 1: a ProjDataInMemory that already holds
+//! other numbers (forward_project documents that it overwrites: every related viewgram of the subset is set, the rest is
+//! zeroed for num_subsets > 1, argument "zero"); 2: a FILE: ProjDataFromStream on a read/write stream that the harness has
+//! pre-filled, in one of the two storage orders -- the only route on which set_viewgram's seek + write
+//! (critical(PROJDATAFROMSTREAMIO)) runs inside a parallel region (ForwardProjectorByBin.cxx, critical(FORWARDPROJ_SETVIEWGRAMS)).
+shared_ptr<ProjData>
+make_forward_output(int kind, const shared_ptr<const ExamInfo>& exam, const shared_ptr<const ProjDataInfo>& pdi, const std::string& dir, bool order_b,
+                    const std::string& name)
+{
+  if (kind == 0 || (kind == 2 && dir.empty()))
+    return shared_ptr<ProjData>(new ProjDataInMemory(exam, pdi));
+  shared_ptr<ProjDataInMemory> pre(new ProjDataInMemory(exam, pdi));
+  float v = 3.F;
+  for (auto it = pre->begin_all(); it != pre->end_all(); ++it, v += 0.25F)
+    *it = v;
+  if (kind == 1)
+    return pre;
+  const ProjDataFromStream::StorageOrder order
+      = order_b ? ProjDataFromStream::Segment_AxialPos_View_TangPos : ProjDataFromStream::Segment_View_AxialPos_TangPos;
+  const std::streamoff off = 16;
+  shared_ptr<std::iostream> st = open_stream(dir + "/" + name, true); // in | out | trunc
+  write_to_stream(*pre, st, off, order);
+  return shared_ptr<ProjData>(new ProjDataFromStream(exam, pdi, st, off, order));
+}
+//! all values of a forward-projection output, in the order of ProjDataInMemory (files are read back viewgram by viewgram, by one thread)
+void
+append_forward_output(std::vector<double>& out, const ProjData& pd)
+{
+  if (const ProjDataInMemory* m = dynamic_cast<const ProjDataInMemory*>(&pd))
+    {
+      append(out, *m);
+      return;
+    }
+  ProjDataInMemory back(pd.get_exam_info_sptr(), pd.get_proj_data_info_sptr());
+  back.fill(-77.F);
+  for (int k = pd.get_min_tof_pos_num(); k <= pd.get_max_tof_pos_num(); ++k)
+    for (int seg = pd.get_min_segment_num(); seg <= pd.get_max_segment_num(); ++seg)
+      for (int v = pd.get_min_view_num(); v <= pd.get_max_view_num(); ++v)
+        if (back.set_viewgram(pd.get_viewgram(v, seg, false, k)) != Succeeded::yes)
+          throw std::logic_error("harness: reading back a viewgram failed");
+  append(out, back);
+}
+
 void
 perturb_on(const json& c, uint64_t pseed)
 {
@@ -474,8 +566,11 @@ site_hit_by_two()
 //! loop of the harness.  3 numbers per pair: bin code (integer), number of detector pairs of the bin + a position-
 //! weighted checksum of their coordinates (multiples of 1e-6), m + 10 tan(theta).  Every number is computed by ONE
 //! thread from the (shared, lazily built) tables, so the comparison of this workload is exact.
+//! PDI = ProjDataInfoCylindricalNoArcCorr or ProjDataInfoGenericNoArcCorr (BlocksOnCylindrical / Generic scanners: the same
+//! public functions, other lazily built tables: ProjDataInfoGenericNoArcCorr.inl, schedule points 3-6 and 16-19)
+template <class PDI>
 void
-query_tables(const ProjDataInfoCylindricalNoArcCorr* p, const Scanner& sc, bool tables_first, std::vector<double>& out)
+query_tables(const PDI* p, const Scanner& sc, bool tables_first, std::vector<double>& out)
 {
   const int ndet = sc.get_num_detectors_per_ring(), rings = sc.get_num_rings();
   const long n = long(ndet) * ndet * rings * rings;
@@ -798,9 +893,10 @@ run_workload(const json& c, int threads, bool perturb, uint64_t pseed, const std
       if (workload == 0)
         { // forward projection of a whole data set
           w.pair->set_up(w.pdi, w.image);
-          ProjDataInMemory res(w.data->get_exam_info_sptr(), w.pdi);
-          w.pair->get_forward_projector_sptr()->forward_project(res, *w.image);
-          append(out, res);
+          const shared_ptr<ProjData> res = make_forward_output(c.value("fwd_out", 0), w.data->get_exam_info_sptr(), w.pdi, dir,
+                                                               (c["dseed"].get<uint64_t>() & 2) != 0, "fwd.s");
+          w.pair->get_forward_projector_sptr()->forward_project(*res, *w.image);
+          append_forward_output(out, *res);
         }
       else if (workload == 6)
         { // lazily built geometry tables used concurrently from the first call on (fresh ProjDataInfo):
@@ -808,13 +904,17 @@ run_workload(const json& c, int threads, bool perturb, uint64_t pseed, const std
           const shared_ptr<ProjDataInfo> fresh_pdi = vg::make_pdi(w.sc, c["pdi"]);
           // the constructor builds the ring-difference tables eagerly; every geometry setter re-arms their lazy
           // construction (documented in ProjDataInfoCylindrical.h), e.g. after set_ring_spacing()
-          if (ProjDataInfoCylindrical* pc = dynamic_cast<ProjDataInfoCylindrical*>(fresh_pdi.get()))
+          if (ProjDataInfoCylindrical* pc = dynamic_cast<ProjDataInfoCylindricalNoArcCorr*>(fresh_pdi.get()))
             if (c["subset"].get<int>() % 3 != 0)
               pc->set_ring_spacing(pc->get_ring_spacing());
           const ProjDataInfoCylindricalNoArcCorr* p = dynamic_cast<const ProjDataInfoCylindricalNoArcCorr*>(fresh_pdi.get());
-          if (!p)
-            throw std::runtime_error("workload 6 needs cylindrical no-arc-correction data");
-          query_tables(p, *w.sc, c["subset"].get<int>() % 2 == 0, out);
+          const ProjDataInfoGenericNoArcCorr* pg = dynamic_cast<const ProjDataInfoGenericNoArcCorr*>(fresh_pdi.get());
+          if (p)
+            query_tables(p, *w.sc, c["subset"].get<int>() % 2 == 0, out);
+          else if (pg) // BlocksOnCylindrical scanner: the tables of ProjDataInfoGenericNoArcCorr are built inside the loop
+            query_tables(pg, *w.sc, c["subset"].get<int>() % 2 == 0, out);
+          else
+            throw std::runtime_error("workload 6 needs no-arc-correction data of a scanner with discrete detectors");
         }
       else if (workload == 1)
         { // back projection of a whole data set
@@ -1002,6 +1102,8 @@ struct FamProjectors : Family
   };
   World w;
   Settings st;
+  std::string dir;
+  int num_fwd = 0;
   const VoxelsOnCartesianGrid<float>& im(int which) const
   {
     return st.geom ? (which ? *w.image2B : *w.imageB) : (which ? *w.image2 : *w.image);
@@ -1012,8 +1114,9 @@ struct FamProjectors : Family
     static const std::vector<int> w{ FWD, BACK, FWD2, BACK2, FWD, BACK, BACK, FWD, CLEAR_CACHE, SET_UP, SET_CACHE, SET_LORS, SET_SYM, SET_GEOM, SET_GEOM, CLEAR_CACHE };
     return w;
   }
-  FamProjectors(const json& c, const std::string& dir, const Settings* o)
-      : st(o ? *o : initial_settings(c))
+  FamProjectors(const json& c, const std::string& dir_v, const Settings* o)
+      : st(o ? *o : initial_settings(c)),
+        dir(dir_v)
   {
     w = make_world(c, st, dir);
   }
@@ -1050,9 +1153,13 @@ struct FamProjectors : Family
       case FWD:
       case FWD2:
         {
-          ProjDataInMemory res(w.data->get_exam_info_sptr(), w.pdi);
-          w.pair->get_forward_projector_sptr()->forward_project(res, im(a % 2), subset, nsub);
-          append(out, res);
+          // (a / 2) % 4: 0, 1 fresh in-memory output (all that saved cases use), 2 pre-filled in-memory output, 3 a pre-filled file
+          const int kind = (a / 2) % 4 <= 1 ? 0 : (a / 2) % 4 - 1;
+          const shared_ptr<ProjData> res = make_forward_output(kind, w.data->get_exam_info_sptr(), w.pdi, dir, (a / 8) % 2 != 0, cat("fwd", ++num_fwd, ".s"));
+          w.pair->get_forward_projector_sptr()->forward_project(*res, im(a % 2), subset, nsub);
+          append_forward_output(out, *res);
+          if (kind)
+            stats().count(kind == 1 ? "history: forward projection into a pre-filled ProjDataInMemory" : "history: forward projection into a file");
           break;
         }
       case BACK:
@@ -1072,7 +1179,7 @@ struct FamProjectors : Family
         set_up_pair();
         break;
       case SET_LORS:
-        st.lors = 1 + a % 2;
+        st.lors = std::min(1 + a % 2, st.max_lors);
         apply_matrix_settings(*w.matrix, st);
         set_up_pair();
         break;
@@ -1953,6 +2060,31 @@ check_history_here(const json& c)
   CaseDir dir;
   const int workload = c["workload"].get<int>();
   const int default_threads = stir::get_default_num_threads();
+  // (12.8) the model's "default number of threads" was whatever STIR reports.  Own statement of stir/num_threads.h: "the default
+  // is normally set from the OMP_NUM_THREADS environment variable. However, if this is not set, we use ~90% of the available
+  // processors" -- the variable is known to the harness (it starts the fresh process with the case's "env_threads"); "~90 %" is
+  // taken as within 1 of 0.9 x omp_get_num_procs() (and at least 1, at most the number of processors).
+  {
+    const char* e = std::getenv("OMP_NUM_THREADS");
+    int stated = (e && std::atoi(e) > 0) ? std::atoi(e) : 0;
+    if (child_mode() && c.value("env_threads", 0) > 0)
+      stated = c.value("env_threads", 0);
+    stats().count("default number of threads compared with the harness's own statement");
+    if (stated > 0)
+      {
+        VF_CHECK(default_threads == stated, "stir::get_default_num_threads() is ", default_threads, " but OMP_NUM_THREADS is ", stated,
+                 " (stir/num_threads.h: the default is set from OMP_NUM_THREADS)");
+      }
+    else if (!e)
+      {
+#ifdef _OPENMP
+        const int procs = omp_get_num_procs();
+        VF_CHECK(default_threads >= 1 && default_threads <= std::max(procs, 1) && std::fabs(default_threads - 0.9 * procs) <= 1.,
+                 "stir::get_default_num_threads() is ", default_threads, " with OMP_NUM_THREADS unset on ", procs,
+                 " processors (stir/num_threads.h: ~90 % of the available processors)");
+#endif
+      }
+  }
   if (!child_mode())
     threads_via_stir(1); // in-process cases do not depend on their position in the process: STIR's one-time reset is over
   std::unique_ptr<Family> fam, ref_fam;
@@ -2235,6 +2367,20 @@ check_fresh(const json& c)
           stats().count(cat("frame step: ", FamScatter::step_name(int(std::labs(f[0].get<long>()) % FamScatter::N))));
     }
   stats().cls(cat("threads ", threads <= 2 ? "2" : threads <= 4 ? "3-4" : threads <= 8 ? "5-8" : "9-16+"));
+  if (workload == 7 && c["lm"]["cache"].get<long>() > 0 && c["lm"]["cache"].get<long>() < threads)
+    stats().cls("list-mode: fewer events per batch ('max cache size') than threads");
+  if (threads == 5 || threads == 6 || (threads >= 9 && threads <= 15 && threads != 12))
+    stats().cls("threads: a count that was never generated before the audit (5, 6, 9-11, 13-15)");
+  if (is_blocks(c))
+    {
+      stats().cls(cat("BlocksOnCylindrical geometry, workload ", workload));
+      if (blocks_lors_limited(c) && c["lors"].get<int>() > 1)
+        stats().cls("BlocksOnCylindrical: one tangential LOR instead of two (known finding of C04, not a thread effect)");
+    }
+  if (workload == 0 && c.value("fwd_out", 0) != 0)
+    stats().cls(c.value("fwd_out", 0) == 1 ? "forward projection into a pre-filled ProjDataInMemory" : "forward projection into a file (ProjDataFromStream)");
+  if (c.value("zeros", 0) != 0 && workload >= 1 && workload <= 5)
+    stats().cls(c.value("zeros", 0) == 1 ? "measured data with 60 % exact zeros" : "measured data: one non-zero view only");
   if (c.value("file_data", 0) != 0 && workload_family(workload) <= 1 && workload != 0)
     stats().cls(cat("file-backed projection data, layout ", c.value("file_data", 0)));
   return Result::pass();
@@ -2259,6 +2405,20 @@ check(const json& c)
   if (r.kind == Result::PASS)
     {
       stats().cls("object-reuse history");
+      if (is_blocks(c))
+        stats().cls(cat("history on BlocksOnCylindrical geometry, family ", workload_family(c["workload"].get<int>())));
+      if (c.value("zeros", 0) != 0 && workload_family(c["workload"].get<int>()) <= 1)
+        stats().cls(c.value("zeros", 0) == 1 ? "history: measured data with 60 % exact zeros" : "history: measured data, one non-zero view only");
+      {
+        bool newcount = false;
+        auto isnew = [](long t) { return t == 6 || (t >= 9 && t <= 15 && t != 12); };
+        newcount = isnew(c["init"][0].get<long>());
+        for (const json& o : c["ops"])
+          if (o.is_array() && o.size() >= 5 && isnew(std::labs(o[0].get<long>())))
+            newcount = true;
+        if (newcount)
+          stats().cls("history with a thread count that was never generated before the audit (6, 9-11, 13-15)");
+      }
       if (c.value("file_data", 0) != 0 && workload_family(c["workload"].get<int>()) == 1)
         stats().cls(cat("file-backed projection data, layout ", c.value("file_data", 0)));
     }
@@ -2342,7 +2502,9 @@ gen(Src& s, int size)
   c["dseed"] = s.seed64();
   c["pseed"] = s.seed64();
   c["workload"] = int(s.pick(std::vector<int>{ 0, 1, 1, 2, 3, 3, 4, 5, 5, 6, 7, 7, 8, 8 }));
-  c["threads"] = int(s.pick(std::vector<int>{ 2, 2, 3, 4, 4, 7, 8, 12, 16, 24 }));
+  // quantifier: "thread counts 1..16 (and more threads than work items)": half of the cases draw from the whole range 2..16
+  // (before the audit 5, 6, 9, 10, 11, 13, 14, 15 were never used), the others from the list weighted towards the corners
+  c["threads"] = s.coin() ? int(s.range(2, 16)) : int(s.pick(std::vector<int>{ 2, 2, 3, 4, 4, 7, 8, 12, 16, 24 }));
   c["reps"] = int(s.range(2, 6));
   c["cache"] = int(s.range(0, 2));
   c["lors"] = int(s.range(1, 2));
@@ -2360,7 +2522,12 @@ gen(Src& s, int size)
   const int workload = c["workload"].get<int>();
   if (workload == 7)
     {
-      c["lm"] = { { "seed", s.seed64() }, { "n", int(s.range(20, 200)) }, { "cache", s.coin() ? 0L : s.range(5, 250) } };
+      // 'max cache size' = events per batch = work items of one parallel loop.  A quarter of the cached cases use 2..16 events
+      // (at most ~25 batches), so that a batch has fewer events than there are threads (before the audit: 2 % of the
+      // list-mode cases, only the remainder batch otherwise)
+      const int lm_n = int(s.range(20, 200));
+      const long lm_small = std::max<long>(s.range(2, 16), lm_n / 25 + 1);
+      c["lm"] = { { "seed", s.seed64() }, { "n", lm_n }, { "cache", s.coin() ? 0L : (s.chance(1, 4) ? lm_small : s.range(5, 250)) } };
       c["reps"] = int(s.range(4, 8)); // cheap workload, and the one with real contention for single cache entries
     }
   if (workload == 8)
@@ -2393,18 +2560,65 @@ gen(Src& s, int size)
   c["hist"] = hist ? 1 : 0;
   if (hist)
     {
-      const std::vector<int> counts{ 1, 2, 2, 3, 4, 4, 5, 7, 8, 8, 12, 16, 16 };
+      const std::vector<int> counts0{ 1, 2, 2, 3, 4, 4, 5, 7, 8, 8, 12, 16, 16 };
+      // every count of 1..16 (a third of the draws; before the audit 6, 9, 10, 11, 13, 14, 15 never occurred)
+      auto count = [&]() { return s.chance(1, 3) ? int(s.range(1, 16)) : int(s.pick(counts0)); };
       auto via = [&]() { return int(s.pick(std::vector<int>{ 0, 0, 0, 1, 1, 1, 1, 2 })); };
-      c["init"] = json::array({ s.pick(counts), via() });
+      c["init"] = json::array({ count(), via() });
       json ops = json::array();
       const int len = int(s.range(3, workload == 8 ? 6 : 4 + size / 12));
       for (int k = 0; k < len; ++k)
-        ops.push_back(json::array({ s.pick(counts), via(), int(s.range(0, 999)), int(s.range(0, 999)), int(s.range(0, 999)) }));
+        ops.push_back(json::array({ count(), via(), int(s.range(0, 999)), int(s.range(0, 999)), int(s.range(0, 999)) }));
       c["ops"] = ops;
       // a sample of the objective-function histories runs in a fresh process (STIR's one-time reset of the thread count)
       const bool child = workload_family(workload) == 1 && s.chance(1, 4);
       c["proc"] = child ? 1 : 0;
       c["env_threads"] = child ? int(s.pick(std::vector<int>{ 0, 0, 1, 2, 3, 5, 8, 12 })) : 0;
+    }
+  // ---- domain audit (DESIGN 12.8): sub-domains that the quantifier covers and the generator never produced -------------
+  // forward projection: output container pre-filled / a file (histories decide per step, see FamProjectors::exec)
+  c["fwd_out"] = workload == 0 ? int(s.pick(std::vector<int>{ 0, 1, 2, 2 })) : 0;
+  // measured data with exact zeros (projector and projection-data objective workloads; see make_world)
+  c["zeros"] = (workload >= 1 && workload <= 5) ? int(s.pick(std::vector<int>{ 0, 0, 0, 1, 1, 2 })) : 0;
+  // the other geometry family: a BlocksOnCylindrical scanner, i.e. ProjDataInfoBlocksOnCylindricalNoArcCorr with the lazily
+  // built tables of ProjDataInfoGenericNoArcCorr (own double-checked-locking guards, schedule points 3-6, 16-19) and the
+  // crystal map of the Scanner, in the projector / objective-function workloads (fresh objects and histories) and in the
+  // first-use workload 6 (fresh objects; the table histories use the setters of the cylindrical class).  1 case in 5.
+  if (workload <= 6 && !(hist && workload == 6) && s.chance(1, 5))
+    {
+      vg::ScannerOpts sb;
+      sb.max_ndet = 24;
+      sb.max_rings = 3;
+      sb.allow_tof = false; // "no TOF for blocks (constructor calls error())", stir_gen.h
+      sb.allow_tilt = false;
+      sb.allow_blocks = true;
+      json scj;
+      shared_ptr<Scanner> scb;
+      for (int tries = 0; tries < 40; ++tries)
+        {
+          scj = vg::gen_scanner(s, sb);
+          if (scj["geometry"].get<std::string>() != "BlocksOnCylindrical")
+            continue;
+          scb = vg::make_scanner(scj);
+          if (scb->check_consistency() == Succeeded::yes)
+            break;
+          scb.reset();
+        }
+      if (scb)
+        {
+          c["scanner"] = scj;
+          json pj = vg::gen_pdi(s, *scb, po);
+          // blocks data: get_s / get_LOR error() "does not work for data with axial compression" (every matrix row fails)
+          pj["span"] = 1;
+          pj["arccorr"] = false;
+          c["pdi"] = pj;
+          // "the ray tracer shrinks the FOV by 5 voxels for blocks" (C04 harness): smaller images give empty rows only
+          const int nx = int(s.range(13, 15));
+          c["image"]["nx"] = nx;
+          c["image"]["ny"] = s.coin() ? nx : int(s.range(13, 15));
+          const int bviews = pj["views"].get<int>();
+          c["subsets"] = s.pick(vg::divisors(bviews));
+        }
     }
   return c;
 }
@@ -2488,6 +2702,45 @@ fixed_cases(int)
   // list-mode objective function: other batch sizes, cache files re-used, other number of subsets
   add(7, { 8, 1 }, { { 8, 2, L::GRADPLUS, 0, 0 }, { 8, 2, L::SET_CACHE_SIZE, 2, 0 }, { 3, 0, L::GRAD, 0, 0 }, { 12, 0, L::REUSE_CACHE, 0, 0 }, { 12, 2, L::GRADPLUS, 1, 0 },
                      { 12, 2, L::SET_CACHE_SIZE, 4, 0 }, { 5, 0, L::REUSE_CACHE, 0, 0 }, { 5, 2, L::HESS, 0, 0 }, { 16, 1, L::SET_NSUB, 1, 0 }, { 16, 2, L::VALUE, 0, 1 } }, 3, 0, 0);
+  // ---- (12.8) sub-domains added by the generator audit
+  // OMP_NUM_THREADS=1 in a fresh process (the documented default is then 1), thread counts 6 / 9 / 13
+  add(3, { 6, 0 }, { { 6, 2, O::GRAD, 0, 0 }, { 9, 0, O::HESS, 0, 1 }, { 13, 1, O::GRADPLUS, 0, 0 } }, 0, 1, 1);
+  {
+    const json blocks_scanner = json::parse(R"({"ax_blocks_per_bucket": 1, "ax_cryst_per_block": 3, "ax_crystal_spacing": 3.875, "bin_size": 1.8536958694458008,
+      "block_gap_ax": 0.0, "block_gap_tr": 0.0, "doi": 1.5, "geometry": "BlocksOnCylindrical", "max_tang": 7, "ndet": 16, "radius": 5.0, "ring_spacing": 3.875,
+      "rings": 3, "singles_units": 0, "tilt": 0.0, "tof_poss": 0, "tr_blocks_per_bucket": 1, "tr_cryst_per_block": 4, "tr_crystal_spacing": 2.5526962280273438, "type": -1})");
+    const json blocks_pdi = json::parse(R"({"arccorr": false, "max_delta": 2, "span": 1, "tang": 7, "tof_mash": 0, "trim": {}, "views": 8})");
+    const json blocks_image = json::parse(R"({"nx": 13, "ny": 14, "nz_extra": 0, "ox": 0.0, "oy": 0.0, "vx_rel": 1.0, "vy_rel": 0.5, "vy_same": true, "z_div": 1, "z_shift_planes": 0})");
+    auto to_blocks = [&](json& c) {
+      c["scanner"] = blocks_scanner;
+      c["pdi"] = blocks_pdi;
+      c["image"] = blocks_image;
+    };
+    // BlocksOnCylindrical: back projection, forward projection into a file (a = 6, 14) and into a pre-filled container (a = 4)
+    add(1, { 6, 0 }, { { 6, 2, P::BACK, 0, 0 }, { 11, 0, P::FWD, 6, 0 }, { 3, 1, P::FWD, 4, 0 }, { 14, 0, P::BACK, 0, 0 }, { 14, 2, P::CLEAR_CACHE, 0, 0 }, { 5, 0, P::FWD, 14, 0 } }, 0, 0, 0);
+    to_blocks(v.back());
+    // ... the objective function on it, measured data with one non-zero view only
+    add(3, { 10, 1 }, { { 10, 2, O::GRAD, 0, 0 }, { 2, 0, O::HESS, 0, 1 }, { 15, 0, O::GRADPLUS, 0, 0 } }, 0, 0, 0);
+    to_blocks(v.back());
+    v.back()["zeros"] = 2;
+    // ... first use of the tables of ProjDataInfoGenericNoArcCorr by 13 threads, fresh objects in every repetition
+    json t = base;
+    to_blocks(t);
+    t["hist"] = 0;
+    t["workload"] = 6;
+    t["threads"] = 13;
+    t["reps"] = 4;
+    t["subset"] = 30;
+    v.push_back(t);
+    t["subset"] = 31; // coordinates first
+    t["threads"] = 6;
+    v.push_back(t);
+    // ... forward projection of a whole data set into a file
+    t["workload"] = 0;
+    t["threads"] = 9;
+    t["fwd_out"] = 2;
+    v.push_back(t);
+  }
   // ---- scatter simulation: the next frame / gate on the same object
   {
     json sc = base;
